@@ -10,6 +10,7 @@ import (
 	"fmt"
 	"os"
 	"path/filepath"
+	"syscall"
 
 	"verifharness/mon"
 	"verifharness/props"
@@ -50,6 +51,10 @@ func main() {
 		os.Exit(2)
 	}
 	if *worker {
+		if spec.MemLimitMB > 0 && !spec.Race {
+			lim := uint64(spec.MemLimitMB) << 20
+			syscall.Setrlimit(syscall.RLIMIT_AS, &syscall.Rlimit{Cur: lim, Max: lim})
+		}
 		w := mon.NewW(spec.ID, *tier, *seed, *shard, *nshards, *dir)
 		spec.Run(w)
 		if err := w.Finish(); err != nil {
